@@ -81,7 +81,7 @@ OBSERVATIONS = [
 # ------------------------------------------------------------------------------------------------ _make_tmp
 
 R.contract(
-    AT + "_make_tmp", "C08",
+    AT + "_make_tmp", ["C06", "C08"],
     types={"final_path": "Path"},
     returns="Path",
     ghost=GHOST, replay=REPLAY,
@@ -95,6 +95,8 @@ R.contract(
         ("temp-in-same-directory", "result.parent == final_path.parent"),
         ("temp-name-is-final-name-dot-8-chars",
          "result.name.startswith(final_path.name + '.') and len(result.name) == len(final_path.name) + 9"),
+        # what snapshot discovery (C06) relies on: a temp is never a `*.json` name, whatever the final name is
+        ("temp-name-is-never-a-.json-name", "not result.name.endswith('.json')"),
         ("temp-is-not-final", "result != final_path"),
         ("temp-is-a-new-empty-file", "not (fs_key(result) in old(fs)) and file_is(fs, fs_key(result), '')"),
         ("temp-recorded", "fs_key(result) in fs_tmps and forall((p, 'str'), p in fs_tmps, p == fs_key(result))"),
